@@ -62,9 +62,27 @@ def run(ctx) -> None:
     r07_4(ctx)
     r07_5(ctx)
     r07_6(ctx)
+    r07_7(ctx)
     positive_example(ctx)
     ctx.floor("underlying_uses", 5)
     ctx.floor("positive_example_fired", 1)
+
+
+def r07_7(ctx) -> None:
+    """The tables R07.2/R07.3 are decided on the borrowed handle's own methods; they hold for a
+    subclass only if the subclass leaves those methods alone: a subclass of the handle overrides
+    nothing but ``aclose`` (whose own rule is C08's) and ``__repr__``."""
+    ctx.rule("R07.7", "subclasses of the borrowed handle inherit construction, iteration, forwarding and disabling unchanged")
+    base = ctx.pkg.cls(BORROW_CLASSES[0])
+    base_name = ctx.pkg.cls_name(BORROW_CLASSES[0])
+    for mod in ctx.pkg.modules.values():
+        for info in mod.classes.values():
+            if info is base or base_name not in [b.split("[")[0].split(".")[-1] for b in info.bases]:
+                continue
+            ctx.count("handle_subclasses")
+            overridden = sorted(set(info.methods) - {"__repr__", "aclose"})
+            ctx.check(not overridden, "R07.7", f"{mod.short}.{info.name}", "methods",
+                      f"{info.name} overrides nothing of the borrowed handle but aclose/__repr__", witness=str(overridden))
 
 
 def _parents(root) -> Dict[int, ast.AST]:
